@@ -1,5 +1,5 @@
 //! unit: u13d
-//! properties: C13 C17
+//! properties: C13 C17 C12
 //! note: hand-written message codecs (msgs.rs): the fixed-position fields of open_channel, accept_channel, their v2 forms, channel_announcement and channel_update are read in the order they are written, field by field (same-typed neighbours - six public keys in a row, five u64 amounts - can be exchanged on one side without a type error and, for a peer with equal values, without failing a round-trip test)
 //! trusted: R21 (field sequences): from the top-level statements of a codec function the extractor takes the names of `self(.a)*.NAME.write(w)?;` (writer) and of `let NAME: T = Readable::read(r)?;` (reader), in order, and emits them as a constant sequence; the lemmas state that the two sequences agree; the TLV suffixes (encode_tlv_stream! / decode_tlv_stream!: u13c) and the struct literal that assembles the read values (field-init shorthand: each value goes to the field of its own name) are outside
 //! plemma: C13 lemma_open_channel_fields: open_channel is read in the order it is written
@@ -9,6 +9,7 @@
 //! plemma: C13 lemma_channel_announcement_fields: the unsigned channel_announcement likewise (reader written as a struct literal: fields are evaluated in source order)
 //! plemma: C13 lemma_channel_announcement_signature_fields: the four signatures of a channel_announcement likewise
 //! plemma: C13 lemma_channel_update_fields: the unsigned channel_update likewise
+//! plemma: C12 lemma_channel_announcement_fields, lemma_channel_update_fields, lemma_node_announcement_fields: and for C12 (NetworkGraph serialization)
 //! plemma: C17 lemma_channel_announcement_fields, lemma_channel_update_fields, lemma_node_announcement_fields: the same three lemmas stand for C17 (the network graph stores and re-reads these messages with these codecs)
 //! plemma: C13 lemma_tx_add_input_fields, lemma_reply_channel_range_fields, lemma_node_announcement_fields, lemma_trampoline_onion_packet_fields, lemma_onion_packet_fields: tx_add_input, reply_channel_range, node_announcement (fixed head), the onion packets likewise (the variable-length parts of these messages are under contract in u13 / u13e)
 //! trusted: assume_specification for core::cmp::max / core::cmp::min (std definitions): present in every unit so that a change that introduces them is verified instead of being rejected by the tool
